@@ -585,6 +585,30 @@ func BeginHooks() *Hooks {
 	return hk
 }
 
+// RuntimeErrors lists the Go runtime errors (nil dereference, index out of range, ...) that the library
+// recovered during the current execution and handed to a hook instead of an observer: no input of the
+// harness can legitimately cause one, so each is an internal fault the stream silently survived.
+//
+//go:norace
+func RuntimeErrors() []string {
+	hk := curHooks
+	if hk == nil {
+		return nil
+	}
+	var out []string
+	for _, d := range hk.Dropped {
+		if strings.Contains(d, "runtime error:") {
+			out = append(out, d)
+		}
+	}
+	for _, e := range hk.Unhandled {
+		if e != nil && strings.Contains(e.Error(), "runtime error:") {
+			out = append(out, e.Error())
+		}
+	}
+	return out
+}
+
 // Words enumerates all words of length <= maxLen over alphabet (shortest first).
 func Words(alphabet []Ev, maxLen int) [][]Ev {
 	out := [][]Ev{{}}
